@@ -1,6 +1,6 @@
 /-
-Preservation of the invariant `Inv` (Proofs/Mesh.lean) by every step of the
-atomic mesh system.
+Preservation of the invariant `Inv` (Proofs/Mesh.lean) by the steps of the
+`Join`/`Connect` goroutines (the accept goroutine: Proofs/MeshAccept.lean).
 -/
 import MpcVerif.Proofs.Mesh
 
@@ -8,6 +8,38 @@ set_option linter.unusedSimpArgs false
 set_option linter.unusedVariables false
 
 namespace Mpc.Mesh
+
+theorem sbit_congr (s s' : State) (j k : Nat) (h : s'.infl j = s.infl j) : sbit s' j k = sbit s j k := by
+  simp [sbit, h]
+
+theorem sbit_of_not_stored (s : State) (j k : Nat) (h : ∀ i, s.infl j ≠ .stored i k) : sbit s j k = 0 := by
+  unfold sbit
+  cases hi : s.infl j with
+  | stored i k' =>
+    by_cases e : k' = k
+    · subst e; exact absurd hi (h i)
+    · simp [e]
+  | _ => rfl
+
+theorem advance_ne_joined (c : Cfg) (s : State) (p k : Nat) : advance c s p k ≠ .joined := by
+  unfold advance; split <;> simp
+
+theorem infoPhase_ne_joined (c : Cfg) (s : State) (r : List Nat) : infoPhase c s r ≠ .joined := by
+  cases r with
+  | nil => exact advance_ne_joined c s 0 1
+  | cons a l => simp [infoPhase]
+
+/-- `phase' i = joined → phase i = joined` for a step that moves one party to a non-joined phase. -/
+macro "phase_frame" : tactic => `(tactic| (
+  intro i e; simp only [upd_apply] at e; split at e
+  · first
+    | (simp at e; done)
+    | exact absurd e (advance_ne_joined _ _ _ _)
+    | exact absurd e (infoPhase_ne_joined _ _ _)
+  · exact e))
+
+macro "acc_frame" : tactic => `(tactic| (
+  intro j e; first | exact e | (simp only [upd_apply]; split <;> first | rfl | exact e)))
 
 theorem inv_join (c : Cfg) (hc : c.Ok) (s s' : State) (h : Inv c s) (i : Nat)
     (hs : step c s (.join i) = some s') : Inv c s' := by
@@ -23,7 +55,17 @@ theorem inv_join (c : Cfg) (hc : c.Ok) (s s' : State) (h : Inv c s) (i : Nat)
       have hn2 := hc.n2
       have hm1 := hc.m1
       have hi0 : i ≠ 0 := by omega
-      refine ⟨h.notBad, h.noInfl, ?_, ?_, ?_, ?_, ?_, ?_, ?_⟩
+      refine ⟨h.notBad, ?_, ?_, ?_, ?_, ?_, ?_, ?_, ?_⟩
+      · intro j
+        have := h.infl j
+        unfold InflInv at this ⊢
+        simp only [upd3_apply, upd_apply]
+        have h1 := hinit.1
+        have h2 := hinit.2.2.2.1
+        cases hi : s.infl j with
+        | none => trivial
+        | taken a k => rw [hi] at this; simp only; grind [Dials]
+        | stored a k => rw [hi] at this; simp only; grind [Dials]
       · intro p hp; simp [upd_apply]; split
         · omega
         · exact h.outside p hp
@@ -47,7 +89,7 @@ theorem inv_join (c : Cfg) (hc : c.Ok) (s s' : State) (h : Inv c s) (i : Nat)
         have := h.dialSlot a b k hd
         have := hinit.1
         grind [Dials]
-      · apply h.leader.congr <;> simp [upd_apply, upd3_apply, Ne.symm hi0]
+      · apply h.leader.congr <;> first | (intro _; rfl) | exact Iff.rfl | simp [upd_apply, upd3_apply, Ne.symm hi0]
       · intro q hq hqn
         by_cases hqi : q = i
         · subst hqi
@@ -60,7 +102,7 @@ theorem inv_join (c : Cfg) (hc : c.Ok) (s s' : State) (h : Inv c s) (i : Nat)
           · simp [upd_apply]
           · simp [upd_apply]
           · simp [upd_apply, prog]
-        · apply (h.peer q hq hqn).congr <;> simp [upd_apply, upd3_apply, hqi, Ne.symm hi0]
+        · apply (h.peer q hq hqn).congr <;> first | (intro _; rfl) | exact Iff.rfl | simp [upd_apply, upd3_apply, hqi, Ne.symm hi0]
     · simp at hs
   · simp at hs
 
@@ -75,7 +117,7 @@ theorem inv_lconnect (c : Cfg) (hc : c.Ok) (s s' : State) (h : Inv c s)
     have hm1 := hc.m1
     have hL := h.leader
     have hini := hL.initial hph
-    refine ⟨h.notBad, h.noInfl, ?_, h.slot, h.accSlot, h.pendSlot, (h.dialSlot_frame rfl rfl (by
+    refine ⟨h.notBad, h.infl_frame rfl rfl rfl (by acc_frame) (by phase_frame), ?_, h.slot, h.accSlot, h.pendSlot, (h.dialSlot_frame rfl rfl rfl (by
       intro i e; simp only [upd_apply]; split
       · rename_i e'; subst e'; simp [hph] at e
       · exact e)), ?_, ?_⟩
@@ -89,13 +131,15 @@ theorem inv_lconnect (c : Cfg) (hc : c.Ok) (s s' : State) (h : Inv c s)
         refine ⟨by simp [upd_apply], ?_⟩
         intro k hk
         have : missing s 0 c.n k = c.n - 1 := missing_all_none s 0 c.n k (fun x _ => hini.2 x k)
+        have hs0 : sbit s 0 k = 0 := by simp [sbit, h.infl_none hini.1]
         simp only [missing] at this ⊢
         simp [upd_apply, hk, this]
+        exact hs0
       · intro k hk; simp [upd_apply, roundsDone] at hk
       · intro r hr; simp [upd_apply] at hr
     · intro q hq hqn
       have hq0 : q ≠ 0 := by omega
-      apply (h.peer q hq hqn).congr <;> simp [upd_apply, hq0, hph, infoSentTo]
+      apply (h.peer q hq hqn).congr <;> first | (intro _; rfl) | exact Iff.rfl | simp [upd_apply, hq0, hph, infoSentTo]
   · simp at hs
 
 theorem inv_hello (c : Cfg) (hc : c.Ok) (s s' : State) (h : Inv c s) (i : Nat)
@@ -114,7 +158,21 @@ theorem inv_hello (c : Cfg) (hc : c.Ok) (s s' : State) (h : Inv c s) (i : Nat)
       have := h.outside i (by omega); simp [hph] at this
     have hP := h.peer i (by omega) hin
     have hj := hP.joined hph
-    refine ⟨h.notBad, h.noInfl, ?_, h.slot, ?_, ?_, ?_, ?_, ?_⟩
+    have hnt : s.infl 0 ≠ .taken i 0 := by
+      intro e
+      have := h.infl 0
+      unfold InflInv at this
+      rw [e] at this
+      exact this.2.2.2.2.2.2 rfl rfl hph
+    refine ⟨h.notBad, ?_, ?_, h.slot, ?_, ?_, ?_, ?_, ?_⟩
+    · intro j
+      have := h.infl j
+      unfold InflInv at this ⊢
+      simp only [upd3_apply, upd_apply]
+      cases hi : s.infl j with
+      | none => trivial
+      | taken a k => rw [hi] at this; simp only; grind [Dials]
+      | stored a k => rw [hi] at this; simp only; grind [Dials]
     · intro p hp
       have : p ≠ i := by omega
       simp [upd_apply, this]; exact h.outside p hp
@@ -137,7 +195,7 @@ theorem inv_hello (c : Cfg) (hc : c.Ok) (s s' : State) (h : Inv c s) (i : Nat)
       have := h.dialSlot a b k hd hcn
       have := hj.1
       grind [joinTable]
-    · apply h.leader.congr <;> simp [upd_apply, Ne.symm hi0]
+    · apply h.leader.congr <;> first | (intro _; rfl) | exact Iff.rfl | simp [upd_apply, Ne.symm hi0]
     · intro q hq hqn
       by_cases hqi : q = i
       · subst hqi
@@ -151,7 +209,7 @@ theorem inv_hello (c : Cfg) (hc : c.Ok) (s s' : State) (h : Inv c s) (i : Nat)
             simp only [upd3_apply]
             split
             · rename_i e; obtain ⟨rfl, -, rfl⟩ := e
-              simp [hj.2.2.1]
+              simp [hj.2.2.1, hnt]
             · rename_i e
               simp [hj.2.1 j k]
               intro e1 e2; exact absurd ⟨e1, trivial, e2⟩ e
@@ -160,7 +218,7 @@ theorem inv_hello (c : Cfg) (hc : c.Ok) (s s' : State) (h : Inv c s) (i : Nat)
         · simp [upd_apply]
         · simp [upd_apply]
         · simp [upd_apply, prog]
-      · apply (h.peer q hq hqn).congr <;> simp [upd_apply, upd3_apply, hqi, Ne.symm hi0]
+      · apply (h.peer q hq hqn).congr <;> first | (intro _; rfl) | exact Iff.rfl | simp [upd_apply, upd3_apply, hqi, Ne.symm hi0]
   · simp at hs
 
 /-- A party whose phase is `run` is a peer in range (the leader never has
@@ -224,7 +282,15 @@ theorem inv_dial (c : Cfg) (hc : c.Ok) (s s' : State) (h : Inv c s) (i : Nat)
       · rename_i e; exact absurd e.2 (hjph e.1)
       · simp only [hnone, Option.some.injEq] at hs
         subst hs
-        refine ⟨h.notBad, h.noInfl, ?_, ?_, ?_, ?_, ?_, ?_, ?_⟩
+        refine ⟨h.notBad, ?_, ?_, ?_, ?_, ?_, ?_, ?_, ?_⟩
+        · intro j'
+          have := h.infl j'
+          unfold InflInv at this ⊢
+          simp only [upd3_apply, upd_apply]
+          cases hi : s.infl j' with
+          | none => trivial
+          | taken a k' => rw [hi] at this; simp only; grind [Dials]
+          | stored a k' => rw [hi] at this; simp only; grind [Dials]
         · intro p hp
           have : p ≠ i := by omega
           simp [upd_apply, this]; exact h.outside p hp
@@ -253,7 +319,7 @@ theorem inv_dial (c : Cfg) (hc : c.Ok) (s s' : State) (h : Inv c s) (i : Nat)
           simp only [upd3_apply, upd_apply] at hcn ⊢
           have := h.dialSlot a b k' hd
           grind [Dials]
-        · apply h.leader.congr <;> simp [upd_apply, upd3_apply, Ne.symm hi0]
+        · apply h.leader.congr <;> first | (intro _; rfl) | exact Iff.rfl | simp [upd_apply, upd3_apply, Ne.symm hi0]
         · intro q hq hqn
           by_cases hqi : q = i
           · subst hqi
@@ -301,6 +367,7 @@ theorem inv_dial (c : Cfg) (hc : c.Ok) (s s' : State) (h : Inv c s) (i : Nat)
               · intro k'' hk''
                 rw [hA.need k'' hk'']
                 symm
+                congr 1
                 apply missing_congr
                 intro y hy0 hyq
                 simp only [upd3_apply]
@@ -309,7 +376,7 @@ theorem inv_dial (c : Cfg) (hc : c.Ok) (s s' : State) (h : Inv c s) (i : Nat)
                   rcases hD.2 with e' | e' <;> omega
                 · rfl
               · exact hA.waited
-          · apply (h.peer q hq hqn).congr <;> simp [upd_apply, upd3_apply, hqi, Ne.symm hi0]
+          · apply (h.peer q hq hqn).congr <;> first | (intro _; rfl) | exact Iff.rfl | simp [upd_apply, upd3_apply, hqi, Ne.symm hi0]
   · simp at hs
 
 theorem targets_leader (s : State) (k : Nat) : targets s 0 k = [] := by simp [targets]
@@ -352,7 +419,7 @@ theorem inv_info (c : Cfg) (hc : c.Ok) (s s' : State) (h : Inv c s)
           (List.Nodup.sublist List.filter_sublist hL.knownNodup) j
           (by simp [List.mem_filter, hkm, hj.2, hj0])
         omega
-    refine ⟨h.notBad, h.noInfl, ?_, h.slot, h.accSlot, h.pendSlot, (h.dialSlot_frame rfl rfl (by
+    refine ⟨h.notBad, h.infl_frame rfl rfl rfl (by acc_frame) (by phase_frame), ?_, h.slot, h.accSlot, h.pendSlot, (h.dialSlot_frame rfl rfl rfl (by
       intro i e; simp only [upd_apply]; split
       · rename_i e'; subst e'; simp [hph] at e
       · exact e)), ?_, ?_⟩
@@ -410,7 +477,7 @@ theorem inv_info (c : Cfg) (hc : c.Ok) (s s' : State) (h : Inv c s)
         · simp [upd_apply, hq0, hjw.1]
         · simp [upd_apply, hq0, hjw.1]
         · simp [upd_apply, hq0, hjw.1, prog]
-      · apply (h.peer q hq hqn).congr <;> simp [upd_apply, hq0, hqj, hph]
+      · apply (h.peer q hq hqn).congr <;> first | (intro _; rfl) | exact Iff.rfl | simp [upd_apply, hq0, hqj, hph]
         rw [infoSentTo_infoPhase c hc]; simp [infoSentTo, hqj]
   · simp at hs
 
@@ -433,7 +500,7 @@ theorem inv_waitDone_leader0 (c : Cfg) (hc : c.Ok) (s : State) (h : Inv c s)
   have hip : infoPhase c s R = .info R := by
     rw [hal]; rfl
   rw [hip]
-  refine ⟨h.notBad, h.noInfl, ?_, h.slot, h.accSlot, h.pendSlot, (h.dialSlot_frame rfl rfl (by
+  refine ⟨h.notBad, h.infl_frame rfl rfl rfl (by acc_frame) (by phase_frame), ?_, h.slot, h.accSlot, h.pendSlot, (h.dialSlot_frame rfl rfl rfl (by
       intro i e; simp only [upd_apply]; split
       · rename_i e'; subst e'; simp [hph] at e
       · exact e)), ?_, ?_⟩
@@ -452,7 +519,7 @@ theorem inv_waitDone_leader0 (c : Cfg) (hc : c.Ok) (s : State) (h : Inv c s)
       exact ⟨hRn, fun x hx => (hrm x).mp hx⟩
   · intro q hq hqn
     have hq0 : q ≠ 0 := by omega
-    apply (h.peer q hq hqn).congr <;> simp [upd_apply, hq0, hph, infoSentTo]
+    apply (h.peer q hq hqn).congr <;> first | (intro _; rfl) | exact Iff.rfl | simp [upd_apply, hq0, hph, infoSentTo]
     exact (hrm q).mpr ⟨hq, hqn⟩
 
 theorem infoSentTo_advance_succ (c : Cfg) (s : State) (p k q : Nat) :
@@ -470,7 +537,7 @@ theorem inv_waitDone_leader (c : Cfg) (hc : c.Ok) (s : State) (h : Inv c s) (k :
   have hk : k + 1 < c.m := by
     rcases hL.shape with e | ⟨k', hk', e⟩ | ⟨r, _, e⟩ | e <;> simp [hph] at e
     omega
-  refine ⟨h.notBad, h.noInfl, ?_, h.slot, h.accSlot, h.pendSlot, (h.dialSlot_frame rfl rfl (by
+  refine ⟨h.notBad, h.infl_frame rfl rfl rfl (by acc_frame) (by phase_frame), ?_, h.slot, h.accSlot, h.pendSlot, (h.dialSlot_frame rfl rfl rfl (by
       intro i e; simp only [upd_apply]; split
       · rename_i e'; subst e'; simp [hph] at e
       · exact e)), ?_, ?_⟩
@@ -494,7 +561,7 @@ theorem inv_waitDone_leader (c : Cfg) (hc : c.Ok) (s : State) (h : Inv c s) (k :
       simp only [upd_apply, if_true, advance] at hr; split at hr <;> simp at hr
   · intro q hq hqn
     have hq0 : q ≠ 0 := by omega
-    apply (h.peer q hq hqn).congr <;> simp [upd_apply, hq0, hph, infoSentTo]
+    apply (h.peer q hq hqn).congr <;> first | (intro _; rfl) | exact Iff.rfl | simp [upd_apply, hq0, hph, infoSentTo]
     exact infoSentTo_advance_succ c s 0 (k + 1) q
 
 theorem inv_waitDone_peer (c : Cfg) (hc : c.Ok) (s : State) (h : Inv c s) (p k : Nat) (hp0 : p ≠ 0)
@@ -512,14 +579,14 @@ theorem inv_waitDone_peer (c : Cfg) (hc : c.Ok) (s : State) (h : Inv c s) (p k :
   obtain ⟨pre, hpre, hdial⟩ := hA.dialed
   have hpre := hpre hk
   simp only [List.append_nil] at hpre
-  refine ⟨h.notBad, h.noInfl, ?_, h.slot, h.accSlot, h.pendSlot, (h.dialSlot_frame rfl rfl (by
+  refine ⟨h.notBad, h.infl_frame rfl rfl rfl (by acc_frame) (by phase_frame), ?_, h.slot, h.accSlot, h.pendSlot, (h.dialSlot_frame rfl rfl rfl (by
       intro i e; simp only [upd_apply]; split
       · rename_i e'; subst e'; simp [hph] at e
       · exact e)), ?_, ?_⟩
   · intro q hq
     have : q ≠ p := by omega
     simp [upd_apply, this]; exact h.outside q hq
-  · apply h.leader.congr <;> simp [upd_apply, Ne.symm hp0]
+  · apply h.leader.congr <;> first | (intro _; rfl) | exact Iff.rfl | simp [upd_apply, Ne.symm hp0]
   · intro q hq hqn
     by_cases hqp : q = p
     · subst hqp
@@ -573,7 +640,7 @@ theorem inv_waitDone_peer (c : Cfg) (hc : c.Ok) (s : State) (h : Inv c s) (p k :
           subst e1 e2
           have := hnew
           simp only [hlt, if_true] at this
-          exact this.congr (by simp [upd_apply, hp0, Ne.symm hp0]) rfl rfl rfl rfl (fun _ _ => rfl) (fun _ => rfl)
+          exact this.congr (by simp [upd_apply, hp0, Ne.symm hp0]) rfl rfl rfl rfl (fun _ _ => rfl) (fun _ => rfl) (fun _ => rfl)
         · simp [hlt, prog] at hp
           obtain ⟨e1, e2⟩ := hp
           subst e1 e2
@@ -581,8 +648,8 @@ theorem inv_waitDone_peer (c : Cfg) (hc : c.Ok) (s : State) (h : Inv c s) (p k :
           simp only [hlt, if_false] at this
           have e : k + 1 = c.m := by omega
           rw [e] at this
-          exact this.congr (by simp [upd_apply, hp0, Ne.symm hp0]) rfl rfl rfl rfl (fun _ _ => rfl) (fun _ => rfl)
-    · apply (h.peer q hq hqn).congr <;> simp [upd_apply, hqp, hp0, Ne.symm hp0]
+          exact this.congr (by simp [upd_apply, hp0, Ne.symm hp0]) rfl rfl rfl rfl (fun _ _ => rfl) (fun _ => rfl) (fun _ => rfl)
+    · apply (h.peer q hq hqn).congr <;> first | (intro _; rfl) | exact Iff.rfl | simp [upd_apply, hqp, hp0, Ne.symm hp0]
 
 theorem inv_waitDone (c : Cfg) (hc : c.Ok) (s s' : State) (h : Inv c s) (p : Nat)
     (hs : step c s (.waitDone p) = some s') : Inv c s' := by
@@ -649,14 +716,14 @@ theorem inv_recvInfo (c : Cfg) (hc : c.Ok) (s s' : State) (h : Inv c s) (i : Nat
     have hna : (l.filter (fun x => decide (x < i))).length = i - 1 := by
       apply length_of_mem_iff _ (List.Nodup.sublist List.filter_sublist hlnd)
       intro x; simp [List.mem_filter, hlmem]; omega
-    refine ⟨h.notBad, h.noInfl, ?_, h.slot, h.accSlot, h.pendSlot, (h.dialSlot_frame rfl rfl (by
+    refine ⟨h.notBad, h.infl_frame rfl rfl rfl (by acc_frame) (by phase_frame), ?_, h.slot, h.accSlot, h.pendSlot, (h.dialSlot_frame rfl rfl rfl (by
       intro i e; simp only [upd_apply]; split
       · rename_i e'; subst e'; simp [hph] at e
       · exact e)), ?_, ?_⟩
     · intro p hp
       have : p ≠ i := by omega
       simp [upd_apply, this]; exact h.outside p hp
-    · apply h.leader.congr <;> simp [upd_apply, Ne.symm hi0]
+    · apply h.leader.congr <;> first | (intro _; rfl) | exact Iff.rfl | simp [upd_apply, Ne.symm hi0]
     · intro q hq hqn
       by_cases hqi : q = i
       · subst hqi
@@ -689,13 +756,16 @@ theorem inv_recvInfo (c : Cfg) (hc : c.Ok) (s s' : State) (h : Inv c s) (i : Nat
           · intro k' hk'
             simp only [upd_apply, if_true, hk']
             rw [hna]
+            have hs0 : sbit s q k' = 0 := by simp [sbit, h.infl_none hh.2.2.1]
+            have hm0 : missing s q q k' = q - 1 := by
+              apply missing_all_none
+              intro x hx
+              rw [hh.1 x k']; simp [joinTable]; omega
             symm
-            apply missing_all_none
-            intro x hx
-            show s.conn q x k' = none
-            rw [hh.1 x k']; simp [joinTable]; omega
+            show missing s q q k' + sbit s q k' = q - 1
+            omega
           · intro k' hk'; omega
-      · apply (h.peer q hq hqn).congr <;> simp [upd_apply, hqi, Ne.symm hi0]
+      · apply (h.peer q hq hqn).congr <;> first | (intro _; rfl) | exact Iff.rfl | simp [upd_apply, hqi, Ne.symm hi0]
   · simp at hs
 
 /-- Facts about a pending connection in an invariant state. -/
@@ -737,255 +807,12 @@ theorem Inv.need_pos {c : Cfg} {s : State} (h : Inv c s) {j i k : Nat}
     have hne : s.phase 0 ≠ .init := by
       intro e; have := (h.leader.initial e).1; simp [hacc] at this
     rw [(h.leader.started hne).2 k hf.km]
-    exact missing_pos s 0 c.n k i hf.dials.1 hf.inn hf.anone
+    exact Nat.lt_of_lt_of_le (missing_pos s 0 c.n k i hf.dials.1 hf.inn hf.anone) (Nat.le_add_right _ _)
   · obtain ⟨k0, todo, hpr⟩ := h.acc_active (by omega) hf.jn hacc
     have hA := (h.peer j (by omega) hf.jn).active k0 todo hpr
     rw [hA.need k hf.km]
     have : i < j := by rcases hf.dials.2 with e | e <;> omega
-    exact missing_pos s j j k i hf.dials.1 this hf.anone
-
-theorem inv_accept_state (c : Cfg) (hc : c.Ok) (s s' : State) (h : Inv c s) (j i k : Nat)
-    (hp : s.pend j i k = true) (hacc : s.acc j = true) (kn' : List Nat)
-    (hkn : (j = 0 ∧ k = 0 ∧ kn' = ins i (s.known 0)) ∨ (¬(j = 0 ∧ k = 0) ∧ kn' = s.known j))
-    (hs' : s' = { s with pend := upd3 s.pend j i k false, need := upd2 s.need j k (s.need j k - 1), conn := upd3 s.conn j i k (some ⟨i, j, k⟩), known := upd s.known j kn' }) :
-    Inv c s' := by
-  have e_pend : s'.pend = upd3 s.pend j i k false := by subst hs'; rfl
-  have e_need : s'.need = upd2 s.need j k (s.need j k - 1) := by subst hs'; rfl
-  have e_conn : s'.conn = upd3 s.conn j i k (some ⟨i, j, k⟩) := by subst hs'; rfl
-  have e_known : s'.known = upd s.known j kn' := by subst hs'; rfl
-  have e_phase : s'.phase = s.phase := by subst hs'; rfl
-  have e_np : s'.np = s.np := by subst hs'; rfl
-  have e_acc : s'.acc = s.acc := by subst hs'; rfl
-  have e_infl : s'.infl = s.infl := by subst hs'; rfl
-  have e_mail : s'.mail = s.mail := by subst hs'; rfl
-  have e_bad : s'.bad = s.bad := by subst hs'; rfl
-  clear hs'
-  have hn2 := hc.n2
-  have hm1 := hc.m1
-  have hf := h.pendFacts hp
-  have hnp := h.need_pos hp hacc
-  have hi0 : i ≠ 0 := by have := hf.dials.1; omega
-  have hstoreb : ∀ b, i < b → missing s' j b k + 1 = missing s j b k := by
-    intro b hb
-    apply missing_store s s' j b k i hf.dials.1 hb hf.anone
-    · simp [e_conn, upd3_apply]
-    · intro y hy; simp [e_conn, upd3_apply, hy]
-  have hother : ∀ b k', k' ≠ k → missing s' j b k' = missing s j b k' := by
-    intro b k' hk'
-    apply missing_congr
-    intro y _ _; simp [e_conn, upd3_apply, hk']
-  refine ⟨by rw [e_bad]; exact h.notBad, by rw [e_infl]; exact h.noInfl, by rw [e_phase]; exact h.outside,
-    ?_, ?_, ?_, ?_, ?_, ?_⟩
-  · intro p q k' cn hcn
-    simp only [e_conn, upd3_apply] at hcn
-    split at hcn
-    · rename_i e; obtain ⟨e1, e2, e3⟩ := e
-      simp at hcn; subst hcn
-      rw [e1, e2, e3]
-      refine ⟨?_, Ne.symm hf.ij, hf.jn, hf.inn, hf.km⟩
-      simp only [wire, hi0, if_false]
-      rcases hf.dials.2 with e | e
-      · simp [e]
-      · have : j ≠ 0 := by omega
-        have : ¬ j < i := by omega
-        simp [*]
-    · exact h.slot p q k' cn hcn
-  · intro a b k' hd hcn
-    simp only [e_conn, e_pend, upd3_apply] at hcn ⊢
-    have := h.accSlot a b k' hd
-    have := hf.dials
-    have := hf.dset
-    grind [Dials]
-  · intro a b k' hp'
-    simp only [e_conn, e_pend, upd3_apply] at hp' ⊢
-    have := h.pendSlot a b k'
-    have := hf.dials
-    grind [Dials]
-  · intro a b k' hd hcn
-    simp only [e_conn, e_pend, e_phase, upd3_apply] at hcn ⊢
-    have := h.dialSlot a b k' hd
-    have := hf.dials
-    grind [Dials]
-  · -- leader
-    have hL := h.leader
-    by_cases hj0 : j = 0
-    · subst hj0
-      have hne : s.phase 0 ≠ .init := by
-        intro e; have := (hL.initial e).1; simp [hacc] at this
-      have hni : k = 0 → i ∉ s.known 0 := by
-        intro e; subst e
-        rw [hL.knownMem]; simp [hi0, hf.anone]
-      have hkn' : kn' = if k = 0 then ins i (s.known 0) else s.known 0 := by
-        rcases hkn with ⟨_, e, e'⟩ | ⟨e, e'⟩
-        · simp [e, e']
-        · have : k ≠ 0 := by simpa using e
-          simp [this, e']
-      refine ⟨by rw [e_phase]; exact hL.shape, by rw [e_np]; exact hL.np0, ?_, ?_, ?_, ?_, ?_, ?_,
-        by rw [e_phase]; exact hL.infoRest, by rw [e_mail]; exact hL.mail0⟩
-      · intro x
-        simp only [e_known, e_conn, upd_same, upd3_apply, hkn']
-        by_cases hk0 : k = 0
-        · subst hk0
-          simp only [if_true, mem_ins, hL.knownMem]
-          by_cases hx : x = i
-          · subst hx; simp
-          · simp [hx]
-        · simp only [hk0, if_false, hL.knownMem]
-          simp [Ne.symm hk0]
-      · simp only [e_known, upd_same, hkn']
-        by_cases hk0 : k = 0
-        · simp only [hk0, if_true]; exact nodup_ins i _ hL.knownNodup (hni hk0)
-        · simp only [hk0, if_false]; exact hL.knownNodup
-      · simp only [e_known, upd_same, hkn']
-        by_cases hk0 : k = 0
-        · subst hk0
-          have := hstoreb c.n hf.inn
-          simp only [if_true, length_ins i _ (hni rfl)]
-          have := hL.lenKnown
-          omega
-        · simp only [hk0, if_false]
-          rw [hother c.n 0 (Ne.symm hk0)]
-          exact hL.lenKnown
-      · intro e; rw [e_phase] at e; exact absurd e hne
-      · intro _
-        refine ⟨by rw [e_acc]; exact hacc, ?_⟩
-        intro k' hk'
-        simp only [e_need, upd2_apply]
-        by_cases e : k' = k
-        · subst e
-          have := hstoreb c.n hf.inn
-          have := (hL.started hne).2 k' hk'
-          simp only [true_and, if_true]
-          omega
-        · simp only [e, and_false, if_false]
-          rw [hother c.n k' e]
-          exact (hL.started hne).2 k' hk'
-      · intro k' hk' hkm
-        rw [e_phase] at hk'
-        simp only [e_need, upd2_apply]
-        by_cases e : k' = k
-        · subst e
-          have := hL.waited k' hk' hkm
-          omega
-        · simp only [e, and_false, if_false]
-          exact hL.waited k' hk' hkm
-    · have hj0' : 0 ≠ j := Ne.symm hj0
-      apply hL.congr <;>
-        simp [e_phase, e_np, e_known, e_conn, e_acc, e_need, e_mail, upd_apply, upd2_apply, upd3_apply, hj0, hj0']
-  · -- peers
-    intro q hq hqn
-    have hq0 : q ≠ 0 := by omega
-    by_cases hqj : q = j
-    · subst hqj
-      obtain ⟨k0, todo, hpr⟩ := h.acc_active hq hqn hacc
-      have hP := h.peer q hq hqn
-      have hA := hP.active k0 todo hpr
-      have hiq : i < q := by rcases hf.dials.2 with e | e <;> omega
-      have hkn' : kn' = s.known q := by
-        rcases hkn with ⟨e, _⟩ | ⟨_, e⟩
-        · omega
-        · exact e
-      have hph : ∀ ph, s.phase q = ph → prog c ph = some (k0, todo) := by intro ph e; rw [← e]; exact hpr
-      refine ⟨?_, ?_, ?_, by rw [e_phase]; exact hP.notInfo, by rw [e_phase]; exact hP.runLt, ?_⟩
-      · intro e; rw [e_phase] at e; have := hph _ e; simp [prog] at this
-      · intro e; rw [e_phase] at e; have := hph _ e; simp [prog] at this
-      · intro e; rw [e_phase] at e; have := hph _ e; simp [prog] at this
-      · intro k1 todo1 hpr1
-        rw [e_phase] at hpr1
-        have : k1 = k0 ∧ todo1 = todo := by
-          rw [hpr] at hpr1; simp at hpr1; exact ⟨hpr1.1.symm, hpr1.2.symm⟩
-        obtain ⟨e1, e2⟩ := this
-        subst e1 e2
-        obtain ⟨pre, hpre, hdial⟩ := hA.dialed
-        refine ⟨hA.kle, by rw [e_phase]; exact hA.sent, by rw [e_mail]; exact hA.nomail,
-          by rw [e_acc]; exact hA.acc, by rw [e_np]; exact hA.np, ?_, ?_, ?_, ?_, ?_⟩
-        · simpa [e_known, hkn'] using hA.knownMem
-        · simpa [e_known, hkn'] using hA.knownNodup
-        · refine ⟨pre, ?_, ?_⟩
-          · intro hlt
-            rw [← hpre hlt]
-            simp [targets, e_known, hkn']
-          · intro x k' hd
-            rw [← hdial x k' hd]
-            simp only [e_conn, upd3_apply]
-            split
-            · rename_i e
-              have := hd.2
-              omega
-            · rfl
-        · intro k' hk'
-          simp only [e_need, upd2_apply]
-          by_cases e : k' = k
-          · subst e
-            have h1 := hstoreb q hiq
-            have := hA.need k' hk'
-            simp only [true_and, if_true]
-            omega
-          · simp only [e, and_false, if_false]
-            rw [hA.need k' hk', hother q k' e]
-        · intro k' hk' hkm
-          simp only [e_need, upd2_apply]
-          by_cases e : k' = k
-          · subst e
-            have := hA.waited k' hk' hkm
-            omega
-          · simp only [e, and_false, if_false]
-            exact hA.waited k' hk' hkm
-    · by_cases hqi : q = i
-      · subst hqi
-        have hP := h.peer q hq hqn
-        have hjq : j ≠ q := Ne.symm hqj
-        refine ⟨?_, ?_, ?_, by rw [e_phase]; exact hP.notInfo, by rw [e_phase]; exact hP.runLt, ?_⟩
-        · intro e; rw [e_phase] at e
-          have := (hP.init e).2.1 j k
-          simp [hp] at this
-        · intro e; rw [e_phase] at e
-          have := (hP.joined e).2.1 j k
-          simp [hp] at this
-        · intro e; rw [e_phase] at e
-          have hh := hP.hello e
-          have hjk := (hh.2.1 j k).mp hp
-          obtain ⟨ej, ek, _⟩ := hjk
-          subst ej ek
-          refine ⟨?_, ?_, by rw [e_acc]; exact hh.2.2.1, ?_, by rw [e_mail, e_phase]; exact hh.2.2.2.2.1,
-            by rw [e_mail]; exact hh.2.2.2.2.2⟩
-          · intro x k'; simp [e_conn, upd3_apply, hq0]; exact hh.1 x k'
-          · intro j' k'
-            simp only [e_pend, e_conn, upd3_apply]
-            by_cases e' : j' = 0 ∧ k' = 0
-            · simp [e'.1, e'.2]
-            · have := (hh.2.1 j' k')
-              have hne : ¬ (j' = 0 ∧ True ∧ k' = 0) := by intro e''; exact e' ⟨e''.1, e''.2.2⟩
-              simp only [hne, if_false]
-              rw [this]
-              constructor
-              · rintro ⟨e1, e2, _⟩; exact absurd ⟨e1, e2⟩ e'
-              · rintro ⟨e1, e2, _⟩; exact absurd ⟨e1, e2⟩ e'
-          · simp [e_known, upd_apply, hq0]; exact hh.2.2.2.1
-        · intro k0 todo hpr
-          rw [e_phase] at hpr
-          apply (hP.active k0 todo hpr).congr <;>
-            simp [e_phase, e_np, e_known, e_conn, e_acc, e_need, e_mail, upd_apply, upd2_apply, upd3_apply, hqj, hjq]
-      · apply (h.peer q hq hqn).congr <;>
-          simp [e_phase, e_np, e_known, e_conn, e_acc, e_need, e_mail, e_pend, upd_apply, upd2_apply, upd3_apply,
-            hqj, hqi, Ne.symm hqj, Ne.symm hqi]
-
-/-- The peer whose hello to the leader is pending sits in `connectPeerToLeader`. -/
-theorem Inv.dialer_hello {c : Cfg} {s : State} (h : Inv c s) (hc : c.Ok) {i : Nat}
-    (hp : s.pend 0 i 0 = true) : s.phase i = .hello := by
-  have hf := h.pendFacts hp
-  have hP := h.peer i hf.dials.1 hf.inn
-  cases hph : s.phase i with
-  | init => have := (hP.init hph).2.1 0 0; simp [hp] at this
-  | joined => have := (hP.joined hph).2.1 0 0; simp [hp] at this
-  | hello => rfl
-  | run k t =>
-    have := h.past0 hc (hP.active k t (by simp [hph, prog])).sent i hf.dials.1 hf.inn
-    simp [hf.anone] at this
-  | info r => exact absurd hph (hP.notInfo r)
-  | done =>
-    have := h.past0 hc (hP.active c.m [] (by simp [hph, prog])).sent i hf.dials.1 hf.inn
-    simp [hf.anone] at this
+    exact Nat.lt_of_lt_of_le (missing_pos s j j k i hf.dials.1 this hf.anone) (Nat.le_add_right _ _)
 
 /-- A peer that has dialled the leader for a connection id above 0 is in the leader's list. -/
 theorem Inv.dialer_known {c : Cfg} {s : State} (h : Inv c s) (hc : c.Ok) {i k : Nat} (hi : 0 < i)
@@ -1003,102 +830,5 @@ theorem Inv.dialer_known {c : Cfg} {s : State} (h : Inv c s) (hc : c.Ok) {i k : 
   | run k' t => exact fromSent (hP.active k' t (by simp [hph, prog])).sent
   | info r => exact absurd hph (hP.notInfo r)
   | done => exact fromSent (hP.active c.m [] (by simp [hph, prog])).sent
-
-/-- What the atomic accept does in an invariant state. -/
-theorem accept_shape (c : Cfg) (hc : c.Ok) (s s' : State) (h : Inv c s) (j i k : Nat)
-    (hs : step c s (.accept j i k) = some s') :
-    s.pend j i k = true ∧ s.acc j = true ∧ ∃ kn',
-      ((j = 0 ∧ k = 0 ∧ kn' = ins i (s.known 0)) ∨ (¬(j = 0 ∧ k = 0) ∧ kn' = s.known j)) ∧
-      s' = { s with pend := upd3 s.pend j i k false, need := upd2 s.need j k (s.need j k - 1), conn := upd3 s.conn j i k (some ⟨i, j, k⟩), known := upd s.known j kn' } := by
-  have hn2 := hc.n2
-  simp only [step, stepAccDec] at hs
-  by_cases hpre : s.acc j = true ∧ s.infl j = none ∧ s.pend j i k = true
-  · obtain ⟨hacc, hinfl, hp⟩ := hpre
-    refine ⟨hp, hacc, ?_⟩
-    have hf := h.pendFacts hp
-    have hnp := h.need_pos hp hacc
-    have hi0 : i ≠ 0 := by have := hf.dials.1; omega
-    rw [if_pos ⟨hacc, hinfl, hp⟩, if_pos ⟨hf.km, hnp⟩] at hs
-    simp only [Option.bind_some, stepAccStore, upd_same] at hs
-    have hnpj : s.np j = c.n := by
-      by_cases hj0 : j = 0
-      · subst hj0; exact h.leader.np0
-      · obtain ⟨k0, todo, hpr⟩ := h.acc_active (by omega) hf.jn hacc
-        exact ((h.peer j (by omega) hf.jn).active k0 todo hpr).np
-    rw [if_neg (by have := hf.inn; omega)] at hs
-    have e1 : upd (upd s.infl j (some (i, k))) j none = s.infl := by
-      funext x; simp only [upd_apply]; split
-      · rename_i e; rw [e]; exact hinfl.symm
-      · rfl
-    by_cases hmem : i ∈ s.known j
-    · rw [if_pos hmem] at hs
-      simp only [hf.anone, Option.some.injEq] at hs
-      have e2 : upd s.known j (s.known j) = s.known := by
-        funext x; simp only [upd_apply]; split
-        · rename_i e; rw [e]
-        · rfl
-      refine ⟨s.known j, Or.inr ⟨?_, rfl⟩, ?_⟩
-      · rintro ⟨e, e'⟩
-        subst e e'
-        have := (h.leader.knownMem i).mp hmem
-        simp [hi0, hf.anone] at this
-      · rw [← hs, e1, e2]
-    · rw [if_neg hmem] at hs
-      simp only [Option.some.injEq] at hs
-      have hj0 : j = 0 := by
-        apply Decidable.byContradiction; intro hj0
-        obtain ⟨k0, todo, hpr⟩ := h.acc_active (by omega) hf.jn hacc
-        exact hmem ((((h.peer j (by omega) hf.jn).active k0 todo hpr).knownMem i).mpr hf.inn)
-      subst hj0
-      have hk0 : k = 0 := by
-        apply Decidable.byContradiction; intro hk0
-        exact hmem (h.dialer_known hc hf.dials.1 hf.inn hf.dset hk0)
-      subst hk0
-      have hhello := h.dialer_hello hc hp
-      have hjt := ((h.peer i hf.dials.1 hf.inn).hello hhello).1
-      have e3 : (fun p q k' => if p = 0 ∧ q = i then (if k' = 0 then some (Conn.mk i 0 0) else none)
-          else s.conn p q k') = upd3 s.conn 0 i 0 (some ⟨i, 0, 0⟩) := by
-        funext p q k'
-        simp only [upd3_apply]
-        by_cases e : p = 0 ∧ q = i
-        · obtain ⟨ep, eq⟩ := e
-          subst ep eq
-          by_cases ek : k' = 0
-          · simp [ek]
-          · simp only [ek, and_false, if_false, and_self, if_true]
-            symm
-            apply h.acc_none hf.dials
-            rw [hjt]; simp [joinTable, ek]
-        · have : ¬ (p = 0 ∧ q = i ∧ k' = 0) := fun e' => e ⟨e'.1, e'.2.1⟩
-          simp [e, this]
-      refine ⟨ins i (s.known 0), Or.inl ⟨rfl, rfl, rfl⟩, ?_⟩
-      rw [← hs, e1, e3]
-  · rw [if_neg hpre] at hs
-    simp at hs
-
-theorem inv_accept (c : Cfg) (hc : c.Ok) (s s' : State) (h : Inv c s) (j i k : Nat)
-    (hs : step c s (.accept j i k) = some s') : Inv c s' := by
-  obtain ⟨hp, hacc, kn', hkn, he⟩ := accept_shape c hc s s' h j i k hs
-  exact inv_accept_state c hc s s' h j i k hp hacc kn' hkn he
-
-/-- Every atomic step preserves the invariant. -/
-theorem inv_step (c : Cfg) (hc : c.Ok) (s s' : State) (h : Inv c s) (e : Ev) (he : e.atomic = true)
-    (hs : step c s e = some s') : Inv c s' := by
-  cases e with
-  | join i => exact inv_join c hc s s' h i hs
-  | lconnect => exact inv_lconnect c hc s s' h hs
-  | hello i => exact inv_hello c hc s s' h i hs
-  | accDec j i k => simp [Ev.atomic] at he
-  | accStore j => simp [Ev.atomic] at he
-  | accept j i k => exact inv_accept c hc s s' h j i k hs
-  | waitDone p => exact inv_waitDone c hc s s' h p hs
-  | info => exact inv_info c hc s s' h hs
-  | recvInfo i => exact inv_recvInfo c hc s s' h i hs
-  | dial i => exact inv_dial c hc s s' h i hs
-
-theorem reach_inv (c : Cfg) (hc : c.Ok) (s : State) (hr : ReachA c s) : Inv c s := by
-  induction hr with
-  | init => exact inv_init c hc
-  | step e _ he hs ih => exact inv_step c hc _ _ ih e he hs
 
 end Mpc.Mesh
